@@ -114,7 +114,7 @@ def local_expr(F, B, l, depth):
         gs = tuple(F.ts(a["t"]) for a in gargs if "t" in a)
         gi = tuple(a["t"] for a in gargs if "t" in a)
         name = (F.body(c) or {}).get("name") or t.get("callee_name") or c
-        return ("call", c, name, tuple(args), gs, d[1], gi)
+        return ("call", c, name, tuple(args), gs, d[1], gi, tuple(("t", a["t"]) if "t" in a else ("o", None) for a in gargs))
     rv = d[3]
     k = rv["k"]
     if k == "use":
